@@ -468,4 +468,303 @@ theorem hardenLinks_idem (p : Policy) (el : Bytes) (u : List Attr) :
         have : (u.any fun a => a.key == b!"target" && asciiEqualFold a.val b!"_blank") = true := hb
         simp [hA, this]
 
+/-! ### what the block returns: the attributes it was given, or rel / target attributes -/
+
+theorem mem_fixFirstTarget (l : List Attr) (b : Attr) (h : b ∈ fixFirstTarget l) : b ∈ l ∨ isRelOrTarget b = true := by
+  induction l with
+  | nil => simp [fixFirstTarget] at h
+  | cons a as ih =>
+    unfold fixFirstTarget at h
+    split at h
+    · rename_i hk
+      rcases List.mem_cons.mp h with rfl | h
+      · split
+        · exact .inl (by simp)
+        · exact .inr (by simp [isRelOrTarget, hk])
+      · exact .inl (List.mem_cons_of_mem _ h)
+    · rcases List.mem_cons.mp h with rfl | h
+      · exact .inl (by simp)
+      · rcases ih h with h | h
+        · exact .inl (List.mem_cons_of_mem _ h)
+        · exact .inr h
+
+theorem mem_addNoOpener (l : List Attr) (b : Attr) (h : b ∈ addNoOpener l) : b ∈ l ∨ isRelOrTarget b = true := by
+  rw [addNoOpener_eq] at h
+  split at h
+  · obtain ⟨a, ha, rfl⟩ := List.mem_map.mp h
+    unfold noOpenerFix
+    split
+    · rename_i hk; exact .inr (by simp [isRelOrTarget, hk])
+    · exact .inl ha
+  · rcases List.mem_append.mp h with h | h
+    · exact .inl h
+    · simp only [List.mem_singleton] at h; subst h; exact .inr (by decide)
+
+theorem mem_hardenCore (isA nf nr tb : Bool) (u : List Attr) (b : Attr) (h : b ∈ hardenCore isA nf nr tb u) :
+    b ∈ u ∨ isRelOrTarget b = true := by
+  unfold hardenCore at h
+  simp only at h
+  have h1 : ∀ x ∈ u.map (relFix nf nr), x ∈ u ∨ isRelOrTarget x = true := by
+    intro x hx
+    obtain ⟨a, ha, rfl⟩ := List.mem_map.mp hx
+    unfold relFix
+    split
+    · rename_i hc
+      simp only [Bool.and_eq_true] at hc
+      exact .inr (by simp [isRelOrTarget, hc.1])
+    · exact .inl ha
+  have h2 : ∀ x ∈ (if (isA && tb) = true then fixFirstTarget (u.map (relFix nf nr)) else u.map (relFix nf nr)),
+      x ∈ u ∨ isRelOrTarget x = true := by
+    intro x hx
+    split at hx
+    · rcases mem_fixFirstTarget _ x hx with hx | hx
+      · exact h1 x hx
+      · exact .inr hx
+    · exact h1 x hx
+  generalize (if (isA && tb) = true then fixFirstTarget (u.map (relFix nf nr)) else u.map (relFix nf nr)) = o2 at h h2
+  have h3 : ∀ x ∈ (if ((nf || nr) && !u.any (·.key == b!"rel")) = true then o2 ++ [(⟨b!"rel", newRelValue nf nr⟩ : Attr)] else o2),
+      x ∈ u ∨ isRelOrTarget x = true := by
+    intro x hx
+    split at hx
+    · rcases List.mem_append.mp hx with hx | hx
+      · exact h2 x hx
+      · simp only [List.mem_singleton] at hx; subst hx
+        exact .inr (by simp [isRelOrTarget])
+    · exact h2 x hx
+  generalize (if ((nf || nr) && !u.any (·.key == b!"rel")) = true then o2 ++ [(⟨b!"rel", newRelValue nf nr⟩ : Attr)] else o2) = o3 at h h3
+  generalize (isA && ((u.any fun a => a.key == b!"target" && asciiEqualFold a.val b!"_blank") ||
+      (tb && u.any (·.key == b!"target")))) = bf at h
+  have h4 : ∀ x ∈ (if (isA && tb && !bf) = true then o3 ++ [(⟨b!"target", b!"_blank"⟩ : Attr)] else o3),
+      x ∈ u ∨ isRelOrTarget x = true := by
+    intro x hx
+    split at hx
+    · rcases List.mem_append.mp hx with hx | hx
+      · exact h3 x hx
+      · simp only [List.mem_singleton] at hx; subst hx
+        exact .inr (by decide)
+    · exact h3 x hx
+  generalize (if (isA && tb && !bf) = true then o3 ++ [(⟨b!"target", b!"_blank"⟩ : Attr)] else o3) = o4 at h h4
+  split at h
+  · rcases mem_addNoOpener o4 b h with h | h
+    · exact h4 b h
+    · exact .inr h
+  · exact h4 b h
+
+theorem mem_hardenLinks (p : Policy) (el : Bytes) (u : List Attr) (b : Attr) (h : b ∈ p.hardenLinks el u) :
+    b ∈ u ∨ isRelOrTarget b = true := by
+  rw [hardenLinks_ext] at h
+  split at h
+  · exact .inl h
+  · exact mem_hardenCore _ _ _ _ u b h
+
+theorem hardenLinks_nonempty (p : Policy) (el : Bytes) (u : List Attr) (h : u.isEmpty = false) :
+    (p.hardenLinks el u).isEmpty = false := by
+  by_cases he : (u.filter (·.key == b!"href")).isEmpty = true
+  · have e : p.hardenLinks el u = u := by rw [hardenLinks_ext]; simp [he]
+    rw [e]; exact h
+  · have he' : (u.filter (·.key == b!"href")).isEmpty = false := by simpa using he
+    have hf : (p.hardenLinks el u).filter (·.key == b!"href") = u.filter (·.key == b!"href") := by
+      rw [hardenLinks_ext]
+      simp only [he', Bool.false_eq_true, ↓reduceIte]
+      exact filter_href_hardenCore _ _ _ _ u
+    cases hH : p.hardenLinks el u with
+    | nil =>
+      rw [hH] at hf
+      have : u.filter (·.key == b!"href") = [] := by rw [← hf]; rfl
+      rw [this] at he'; cases he'
+    | cons _ _ => rfl
+
+theorem mapMOpt_all_fix {α} (f : α → Option (Option α)) (l : List α) (h : ∀ b ∈ l, f b = some (some b)) :
+    mapMOpt f l = some l := by
+  induction l with
+  | nil => rfl
+  | cons x xs ih =>
+    unfold mapMOpt
+    rw [h x (by simp), ih (fun b hb => h b (by simp [hb]))]
+
+/-! ### C20 when the rules let rel and target through -/
+
+/-- **the attribute pass reproduces its result on element `el`** when the rules do not look at the value of the
+    element's URL attribute and, on a link element, accept `rel` and `target` whatever their value: the tokens and
+    the target the options added are found in place on the second pass, and nothing is added again -/
+theorem link_idemOpen (p : Policy) (el : Bytes) (hs : LinkCoreAt p el) (attrs out : List Attr) (aps : AttrRules)
+    (h : p.sanitizeAttrs el attrs aps = some out)
+    (hblind : ∀ k, urlKeyFor el = some k → ∀ v v',
+      (p.filterAttr el aps false ⟨k, v⟩).isSome = (p.filterAttr el aps false ⟨k, v'⟩).isSome)
+    (hopen : isHrefElement el = true → ∀ v,
+      (p.filterAttr el aps false ⟨b!"rel", v⟩).isSome = true ∧ (p.filterAttr el aps false ⟨b!"target", v⟩).isSome = true) :
+    p.sanitizeAttrs el out aps = some out := by
+  rw [link_sanitizeAttrsAt p el hs] at h ⊢
+  simp only at h ⊢
+  generalize hacc : (fun a => (p.filterAttr el aps false a).isSome) = acc at h ⊢
+  generalize hc : attrs.filter acc = c at h
+  have hcacc : ∀ a ∈ c, acc a = true := by
+    intro a ha; rw [← hc] at ha; exact (List.mem_filter.mp ha).2
+  have hblind' : ∀ k, urlKeyFor el = some k → ∀ v v', acc ⟨k, v⟩ = acc ⟨k, v'⟩ := by
+    intro k hk; rw [← hacc]; exact hblind k hk
+  by_cases hce : c.isEmpty = true
+  · simp only [hce, ↓reduceIte, Option.some.injEq] at h
+    subst h
+    have : c = [] := List.isEmpty_iff.mp hce
+    subst this
+    rfl
+  · simp only [hce, Bool.false_eq_true, ↓reduceIte] at h
+    unfold Policy.linkPasses at h
+    by_cases hl : linkable el = true
+    · simp only [hl, ↓reduceIte] at h
+      obtain ⟨u, hu, hout⟩ : ∃ u, (if p.requireParseableURLs = true then mapMOpt (p.urlPassAttr el) c else some c) = some u ∧
+          out = (if (p.requireNoFollow || p.requireNoFollowFullyQualifiedLinks || p.requireNoReferrer ||
+              p.requireNoReferrerFullyQualifiedLinks || p.addTargetBlankToFullyQualifiedLinks) &&
+              decide (u.length > 0) && isHrefElement el then p.hardenLinks el u else u) := by
+        cases hm : (if p.requireParseableURLs = true then mapMOpt (p.urlPassAttr el) c else some c) with
+        | none => rw [hm] at h; simp at h
+        | some u => rw [hm] at h; simp only [Option.map_some, Option.some.injEq] at h; exact ⟨u, rfl, h.symm⟩
+      have huacc : ∀ b ∈ u, acc b = true := by
+        intro b hb
+        by_cases hrp : p.requireParseableURLs = true
+        · simp only [hrp, ↓reduceIte] at hu
+          obtain ⟨a, ha, hfa⟩ := mapMOpt_mem _ c u hu b hb
+          obtain ⟨_, hk, hor⟩ := urlFixAt hs a b hfa
+          rcases hor with rfl | ⟨hkey, _⟩
+          · exact hcacc _ ha
+          · have := hblind' a.key hkey a.val b.val
+            have hb' : b = ⟨a.key, b.val⟩ := by cases b; simp_all
+            rw [hb', ← this]
+            exact hcacc a ha
+        · simp only [hrp, Bool.false_eq_true, ↓reduceIte, Option.some.injEq] at hu
+          subst hu; exact hcacc b hb
+      -- each attribute the URL pass returned is left alone by it
+      have hueach : p.requireParseableURLs = true → ∀ b ∈ u, p.urlPassAttr el b = some (some b) := by
+        intro hrp b hb
+        simp only [hrp, ↓reduceIte] at hu
+        obtain ⟨a, _, hfa⟩ := mapMOpt_mem _ c u hu b hb
+        exact (urlFixAt hs a b hfa).1
+      have hfu : u.filter acc = u := List.filter_eq_self.mpr huacc
+      by_cases hcond : ((p.requireNoFollow || p.requireNoFollowFullyQualifiedLinks || p.requireNoReferrer ||
+          p.requireNoReferrerFullyQualifiedLinks || p.addTargetBlankToFullyQualifiedLinks) &&
+          decide (u.length > 0) && isHrefElement el) = true
+      · simp only [hcond, ↓reduceIte] at hout
+        have hhref : isHrefElement el = true := by simp only [Bool.and_eq_true] at hcond; exact hcond.2
+        have hupos : u.length > 0 := by simp only [Bool.and_eq_true, decide_eq_true_eq] at hcond; exact hcond.1.2
+        have hflags : (p.requireNoFollow || p.requireNoFollowFullyQualifiedLinks || p.requireNoReferrer ||
+            p.requireNoReferrerFullyQualifiedLinks || p.addTargetBlankToFullyQualifiedLinks) = true := by
+          simp only [Bool.and_eq_true] at hcond; exact hcond.1.1
+        have hopen' : ∀ v, acc ⟨b!"rel", v⟩ = true ∧ acc ⟨b!"target", v⟩ = true := by
+          intro v; rw [← hacc]; exact hopen hhref v
+        have houtacc : ∀ b ∈ out, acc b = true := by
+          intro b hb
+          rw [hout] at hb
+          rcases mem_hardenLinks p el u b hb with hb | hb
+          · exact huacc b hb
+          · unfold isRelOrTarget at hb
+            simp only [Bool.or_eq_true, beq_iff_eq] at hb
+            rcases hb with hk | hk
+            · have : b = ⟨b!"rel", b.val⟩ := by cases b; simp_all
+              rw [this]; exact (hopen' b.val).1
+            · have : b = ⟨b!"target", b.val⟩ := by cases b; simp_all
+              rw [this]; exact (hopen' b.val).2
+        have hfo : out.filter acc = out := List.filter_eq_self.mpr houtacc
+        have hune : u.isEmpty = false := by
+          cases u with
+          | nil => simp at hupos
+          | cons _ _ => rfl
+        have hone : out.isEmpty = false := by rw [hout]; exact hardenLinks_nonempty p el u hune
+        have hopos : out.length > 0 := by
+          cases out with
+          | nil => simp at hone
+          | cons _ _ => simp
+        have houtfix : (if p.requireParseableURLs = true then mapMOpt (p.urlPassAttr el) out else some out) = some out := by
+          by_cases hrp : p.requireParseableURLs = true
+          · simp only [hrp, ↓reduceIte]
+            apply mapMOpt_all_fix
+            intro b hb
+            rw [hout] at hb
+            rcases mem_hardenLinks p el u b hb with hb | hb
+            · exact hueach hrp b hb
+            · -- a rel or target attribute is not the URL attribute of a link element
+              have hkne : (b.key == b!"href") = false := by
+                unfold isRelOrTarget at hb
+                simp only [Bool.or_eq_true, beq_iff_eq] at hb
+                rcases hb with hk | hk <;> rw [hk] <;> decide
+              unfold Policy.urlPassAttr
+              simp only [hhref, ↓reduceIte, hkne, Bool.false_eq_true]
+          · simp only [hrp, Bool.false_eq_true, ↓reduceIte]
+        rw [hfo]
+        simp only [hone, Bool.false_eq_true, ↓reduceIte]
+        unfold Policy.linkPasses
+        have hcond2 : ((p.requireNoFollow || p.requireNoFollowFullyQualifiedLinks || p.requireNoReferrer ||
+            p.requireNoReferrerFullyQualifiedLinks || p.addTargetBlankToFullyQualifiedLinks) &&
+            decide (out.length > 0) && isHrefElement el) = true := by
+          simp [hflags, hopos, hhref]
+        simp only [hl, ↓reduceIte, houtfix, Option.map_some, hcond2]
+        rw [hout, hardenLinks_idem]
+      · simp only [hcond, Bool.false_eq_true, ↓reduceIte] at hout
+        subst hout
+        have hufix : (if p.requireParseableURLs = true then mapMOpt (p.urlPassAttr el) out else some out) = some out := by
+          by_cases hrp : p.requireParseableURLs = true
+          · simp only [hrp, ↓reduceIte]
+            exact mapMOpt_all_fix _ _ (hueach hrp)
+          · simp only [hrp, Bool.false_eq_true, ↓reduceIte]
+        rw [hfu]
+        by_cases hue : out.isEmpty = true
+        · simp only [hue, ↓reduceIte]
+        · simp only [hue, Bool.false_eq_true, ↓reduceIte]
+          unfold Policy.linkPasses
+          simp only [hl, ↓reduceIte, hufix, Option.map_some, hcond, Bool.false_eq_true]
+    · have hl' : linkable el = false := by simpa using hl
+      simp only [hl', Bool.false_eq_true, ↓reduceIte, Option.some.injEq] at h
+      subst h
+      have hfc : c.filter acc = c := List.filter_eq_self.mpr hcacc
+      rw [hfc]
+      simp only [hce, Bool.false_eq_true, ↓reduceIte]
+      unfold Policy.linkPasses
+      simp only [hl', Bool.false_eq_true, ↓reduceIte]
+
+/-- policies with link options whose rules let `rel` and `target` through, whatever their value, on the link
+    elements (and, like `LinkSimple`, attach no value pattern to the URL attributes; no styles, forced crossorigin
+    or sandbox, no rewriter; URL normalisation stable) -/
+structure LinkOpen (p : Policy) : Prop where
+  core : ∀ el, LinkCoreAt p el
+  blind : ∀ el aps, p.attrRulesFor el = some aps → ∀ k, urlKeyFor el = some k → ∀ v v',
+    (p.filterAttr el aps false ⟨k, v⟩).isSome = (p.filterAttr el aps false ⟨k, v'⟩).isSome
+  letThrough : ∀ el aps, p.attrRulesFor el = some aps → isHrefElement el = true → ∀ v,
+    (p.filterAttr el aps false ⟨b!"rel", v⟩).isSome = true ∧ (p.filterAttr el aps false ⟨b!"target", v⟩).isSome = true
+
+theorem attrFix_of_open (p : Policy) (hs : LinkOpen p) : AttrFix p := by
+  intro t aps attrs _ haps h
+  unfold Policy.cleanAttrs at h ⊢
+  split at h
+  · simp at h; subst h; simp_all
+  · simp only
+    split
+    · rename_i he
+      have : attrs = [] := List.isEmpty_iff.mp he
+      subst this; rfl
+    · exact link_idemOpen p t.data (hs.core t.data) t.attrs attrs aps h (hs.blind t.data aps haps)
+        (hs.letThrough t.data aps haps)
+
+/-- **C20, policies with link options whose rules let rel and target through**: sanitising twice is sanitising
+    once, for every input — "added rel tokens are not repeated" — provided URL normalisation is stable.
+    Together with `C20_links` (rules that let neither through) this leaves exactly the mixed case, where the
+    order of the two attributes changes on the second pass: the known finding `forced-attr-order`. -/
+theorem C20_links_open (p : Policy) (hp : Plain p.ensureInit) (hs : LinkOpen p.ensureInit) (input : Bytes) :
+    p.sanitizeCore (p.sanitizeCore input) = p.sanitizeCore input :=
+  C20_fix p hp (attrFix_of_open _ hs) input
+
+theorem C20_links_open_on (p : Policy) (input : Bytes) (hp : PlainOn p.ensureInit (tokenize input))
+    (hnc : p.ensureInit.allowComments = false) (hs : LinkOpen p.ensureInit) :
+    p.sanitizeCore (p.sanitizeCore input) = p.sanitizeCore input :=
+  C20_fix_on p input hp hnc (attrFix_of_open _ hs)
+
+/-- such a policy at work (a test, not the unbounded claim): rel and target are allowed on `a`, the options add
+    to them in place, and the second pass changes nothing -/
+example :
+    let p : Policy := { initialized := true, requireParseableURLs := true, requireNoFollow := true,
+                        addTargetBlankToFullyQualifiedLinks := true, allowURLSchemes := [(b!"https", [])],
+                        elsAndAttrs := [(b!"a", [(b!"href", [none]), (b!"rel", [none]), (b!"target", [none])])] }
+    p.sanitizeCore b!"<a rel=\"author\" href=\"https://a.b/\" target=\"x\">t</a>" =
+      b!"<a rel=\"author nofollow noopener\" href=\"https://a.b/\" target=\"_blank\">t</a>" ∧
+    p.sanitizeCore (p.sanitizeCore b!"<a rel=\"author\" href=\"https://a.b/\" target=\"x\">t</a>") =
+      p.sanitizeCore b!"<a rel=\"author\" href=\"https://a.b/\" target=\"x\">t</a>" := by decide
+
 end BM.Props
